@@ -5,6 +5,7 @@ import (
 	"fmt"
 	"sort"
 	"strings"
+	"sync"
 	"time"
 
 	"verif/harness/fed"
@@ -59,11 +60,14 @@ func c13Check(ctx *Ctx, idx int, cs c13Case) {
 		ctx.Rep.Count("feature:" + ft)
 	}
 	dr := hx.NewRand(cs.DelaySeed)
+	var drMu sync.Mutex
 	for _, s := range cf.F.Services {
 		s.Delay = func(c *fed.Call) time.Duration {
 			if cs.DelaySeed == 0 {
 				return 0
 			}
+			drMu.Lock()
+			defer drMu.Unlock()
 			return time.Duration(dr.Intn(400)) * time.Microsecond
 		}
 	}
